@@ -250,7 +250,12 @@ class CounterToken(Token, FileSystemEventHandler):
         for path in self.path.glob("*.token"):
             tf = old_cache.get(path.name)
             if tf is None:
-                tf = TokenFile(path)
+                try:
+                    tf = TokenFile(path)
+                except FileNotFoundError:
+                    # Removed since the directory was listed (the thread that
+                    # waits for the end of a job does not take the IPC lock)
+                    continue
                 tf.watch()
                 logging.debug("Read token file %s (%d)", path, tf.count)
             else:
